@@ -17,6 +17,19 @@ failure and leave the dictionary unchanged.
      grammar, alignment text, decode of tests/data/goforward.raw (hypothesis must name base spellings).
   4. Every recorded execution is validated event by event by TLC against DictAbs (DictTrace.tla).
 
+Three clauses go beyond "lookup returns it" (all evaluated by TLC on the recorded events):
+  * the pronunciation of an addition is DictAbs!PhoneTokens of the BYTES handed over, so every layout of the same
+    phones (leading/trailing/repeated blanks, tabs, CR, LF - probed one by one and mixed into all generated
+    executions) is the same abstract addition; PhoneParse.tla (the tokeniser loop, iteration by iteration) refines it
+    for every string of a small alphabet;
+  * an accepted word is REALISED by its pronunciation (DictAbs!Realised): the word-boundary context tables the
+    search will read for it hold, for every neighbouring phone, the model definition's triphone of ITS first/last
+    phone in that context - the driver compares decoder_t.d2p with bin_mdef_phone_id_nearest after every addition
+    and over the whole dictionary at every scan; DictImpl carries what each lazily filled table was filled from;
+  * a dictionary is a value (DictAbs!SameValue/SameResult): a TWIN decoder whose dictionary FILE holds the loaded
+    file plus the added words has the same entries and gives the same hypothesis, score and segmentation for the
+    same grammar / alignment text and audio.
+
 An input class that already fails in its probe (a finding, reported under its own key) is left out of the
 tours and random histories of the same run - a rejected addition is a no-op of the model, so the remaining
 path is still a path of the model - so that one open finding does not hide everything behind it.
@@ -412,14 +425,32 @@ def rand_pron(rng, phones, n, avoid_one_letter):
         return t
 
 
+# layouts of a phone string: (name, before the first phone, between phones, after the last one); each of them names
+# the same pronunciation as the phones joined by single blanks (DictAbs!PhoneTokens)
+LAYOUTS = [("plain", "", " ", ""), ("trail-blank", "", " ", " "), ("trail-newline", "", " ", "\n"),
+           ("trail-two-blanks", "", " ", "  "), ("trail-crlf", "", " ", "\r\n"), ("trail-blank-newline", "", " ", " \n"),
+           ("trail-tab-blank-tab", "", " ", "\t \t"), ("trail-many", "", " ", " \r\n\t  \n"), ("lead-blank", " ", " ", ""),
+           ("lead-tab-blanks", "\t  ", " ", ""), ("lead-newline", "\r\n", " ", ""), ("wide", "", "   ", ""),
+           ("tabs", "", "\t", ""), ("newlines", "\n", "\n", "\n\n"), ("crlf-between", "", "\r\n", "\r\n\r\n"),
+           ("mixed", " ", " \t ", " \r\n"), ("both-ends", " ", " ", " \n")]
+BROKEN = set()      # input classes that failed in the probes (shared with the Driver)
+
+
+def lay_out(toks, lay):
+    return (lay[1] + lay[2].join(toks) + lay[3]).encode()
+
+
 def join_phones(rng, toks, fancy=False):
-    if not fancy:
+    if not fancy or "padded-phone-string" in BROKEN:
         return " ".join(toks).encode()
-    seps = [" ", "  ", "\t", " \t ", "\n"]
-    s = rng.choice(["", " ", "\t"]) + toks[0] if toks else rng.choice([" ", "\t ", "  "])
+    if rng.random() < 0.5:
+        return lay_out(toks, rng.choice(LAYOUTS[1:]))
+    seps = [" ", "  ", "\t", " \t ", "\n", "\r\n", "\n \n"]
+    ends = ["", " ", "\n", "  ", "\r\n", " \n", "\t\t", " \t\r\n "]
+    s = rng.choice(["", " ", "\t", "  ", "\r\n "]) + toks[0] if toks else rng.choice([" ", "\t ", "  ", "\r\n"])
     for t in toks[1:]:
         s += rng.choice(seps) + t
-    return (s + rng.choice(["", " ", "\n"])).encode()
+    return (s + rng.choice(ends)).encode()
 
 
 def bad_pron(rng, phones, avoid_one_letter):
